@@ -25,6 +25,17 @@ import (
 )
 
 func init() {
+	// C14: the reconnect options (and asynchronous dialing) set on the socket after a dialer was
+	// created are the dialer's: it answers them and paces its attempts by them
+	vexplore.Register("C14", func(tier string) []*vexplore.Scenario {
+		return []*vexplore.Scenario{
+			{Name: "reconnect-options-set-on-the-socket-reach-existing-dialers", Mode: "enum", Reset: kit.ResetGlobals, Body: sockOptsExisting,
+				NeedCounters: []string{"passed-on-to-existing-dialer"}},
+		}
+	})
+}
+
+func init() {
 	vexplore.Register("C19", func(tier string) []*vexplore.Scenario {
 		return []*vexplore.Scenario{
 			{Name: "maxrecvsize-takes-effect", Mode: "enum", Reset: kit.ResetGlobals, Body: maxRecv,
